@@ -246,6 +246,70 @@ def run(ctx, R):
         R.check(n_excl >= 3, "r4", "root-type-excluded", C.loc(g["sp"]),
                 "every branch of vertex_type_iter must exclude the root query type (found %d exclusions for 3 branches)" % n_excl)
     partition_table(C, R)
+    implements_table(C, R)
+
+
+def implements_table(C, R):
+    """r7: the `implements` / `implementer` edges are evaluated on a schema with an interface hierarchy (interfaces implementing
+    interfaces, objects implementing several, an unrelated type): implements(T) is T's declared list, implementer(X) is X itself
+    plus every type - object *or interface* - that declares X, and the two are inverse to each other. Schema::subtypes and
+    get_vertex_type_implements are evaluated from their own source, not assumed."""
+    from tfv import absint as A
+    from tfv import stdmodel as M
+    R.rule("r7", "implements / implementer edges over an interface hierarchy: declared list; itself + every declaring type (objects and interfaces); inverse relations")
+    fi, fr = C.fn(AD + "resolve_vertex_type_implements_edge"), C.fn(AD + "resolve_vertex_type_implementer_edge")
+    if fi is None or fr is None:
+        R.fail("r7", "anchor", "-", "resolve_vertex_type_implements_edge / resolve_vertex_type_implementer_edge not found")
+        return
+    PT = "async_graphql_parser::types::"
+
+    def pos(x):
+        return A.Struct("async_graphql_parser::pos::Positioned", {"node": x})
+    decl = {"Named": ("Interface", []), "Animal": ("Interface", ["Named"]), "Pet": ("Interface", ["Animal", "Named"]),
+            "Dog": ("Object", ["Pet", "Animal", "Named"]), "Rock": ("Object", ["Named"]), "Lone": ("Object", [])}
+
+    def defn(name):
+        kind, impl = decl[name]
+        inner = A.Struct(PT + "service::%sType" % kind, {"implements": A.VecV([pos(x) for x in impl]), "fields": A.VecV([])})
+        return A.Struct(PT + "service::TypeDefinition", {"name": pos(name), "kind": A.Enum(PT + "service::TypeKind", kind, [inner]),
+                                                         "extend": False, "description": M.none(), "directives": A.VecV([])})
+    defs = {n: defn(n) for n in decl}
+    schema = A.Struct("trustfall_core::schema::Schema", {"vertex_types": M.MapV([(n, defs[n]) for n in decl])})
+    I = M.intrinsics()
+    I.update(M.string_intrinsics())
+    I["async_graphql_value::Name::as_str"] = lambda ip, n, a: A.deref(a[0])
+
+    def run_(f, name):
+        v = A.Enum(AD + "SchemaVertex", "VertexType", [A.Struct(AD + "VertexType", {"defn": defs[name]})])
+        out = []
+        for x in M.to_iter(A.Interp(C, I, max_steps=400000).call_by_type(f, [("Schema", schema), ("SchemaVertex", v)])):
+            x = A.deref(x)
+            if not (isinstance(x, A.Enum) and x.variant == "VertexType"):
+                raise A.Unsupported("resolver yields %r" % (x,))
+            out.append(A.deref(A.deref(A.deref(A.deref(x.fields[0]).fields["defn"]).fields["name"]).fields["node"]))
+        return out
+    bad = None
+    n = 0
+    try:
+        for t in decl:
+            got_i, got_r = run_(fi, t), run_(fr, t)
+            want_i = list(decl[t][1])
+            want_r = sorted({t} | {u for u in decl if t in decl[u][1]})
+            n += 2
+            if got_i != want_i and bad is None:
+                bad = ("implements", t, got_i, want_i)
+            if sorted(got_r) != want_r and bad is None:
+                bad = ("implementer", t, sorted(got_r), want_r)
+    except A.Unsupported as e:
+        R.fail("r7", "unanalysable", C.loc(fr["sp"]), "cannot evaluate the implements / implementer resolvers abstractly: %s (fail closed)" % e)
+        return
+    except A.PanicReached as e:
+        R.fail("r7", "panic", C.loc(fr["sp"]), "an implements / implementer resolver panics on the hierarchy: %s" % e.what)
+        return
+    R.floor("r7", "type x edge evaluations", n, 12)
+    R.check(bad is None, "r7", "implements-implementer-table", C.loc(fr["sp"]),
+            "on the hierarchy Named <- Animal <- Pet <- Dog (+ Rock, Lone) the `%s` edge of %s yields %s, expected %s: introspection misreports "
+            "the implements relation (the two edges must be inverse, interfaces included)" % (bad or ("", "", "", "")), {"cases": n})
 
 
 def partition_table(C, R):
